@@ -22,6 +22,73 @@ pub static CORRUPTIONS: AtomicU64 = AtomicU64::new(0);
 pub static FIRST_CORRUPT_SIZE: AtomicUsize = AtomicUsize::new(0);
 pub static FIRST_CORRUPT_OFF: AtomicUsize = AtomicUsize::new(0);
 pub static FREED_BLOCKS: AtomicU64 = AtomicU64::new(0);
+pub static DOUBLE_FREES: AtomicU64 = AtomicU64::new(0);
+pub static FIRST_DOUBLE_FREE_SIZE: AtomicUsize = AtomicUsize::new(0);
+
+// open-addressing set of the addresses currently parked (0 = empty, 1 = tombstone)
+const SET: usize = 1 << 20;
+static mut PARKED: [usize; SET] = [0; SET];
+static mut TOMBS: usize = 0;
+
+fn slot_of(p: usize) -> usize {
+    (p >> 4).wrapping_mul(0x9e37_79b9_7f4a_7c15) >> 44
+}
+unsafe fn set_contains(p: usize) -> bool {
+    let mut i = slot_of(p) % SET;
+    loop {
+        let v = PARKED[i];
+        if v == 0 {
+            return false;
+        }
+        if v == p {
+            return true;
+        }
+        i = (i + 1) % SET;
+    }
+}
+unsafe fn set_insert(p: usize) {
+    let mut i = slot_of(p) % SET;
+    loop {
+        let v = PARKED[i];
+        if v == 0 || v == 1 {
+            if v == 1 {
+                TOMBS -= 1;
+            }
+            PARKED[i] = p;
+            return;
+        }
+        i = (i + 1) % SET;
+    }
+}
+unsafe fn set_remove(p: usize) {
+    let mut i = slot_of(p) % SET;
+    loop {
+        let v = PARKED[i];
+        if v == 0 {
+            return;
+        }
+        if v == p {
+            PARKED[i] = 1;
+            TOMBS += 1;
+            return;
+        }
+        i = (i + 1) % SET;
+    }
+}
+unsafe fn set_maybe_rebuild() {
+    // too many tombstones make probes long: rebuild from the ring
+    if TOMBS > SET / 4 {
+        for x in PARKED.iter_mut() {
+            *x = 0;
+        }
+        TOMBS = 0;
+        let mut i = TAIL;
+        while i != HEAD {
+            set_insert(SLOTS[i].0);
+            i = (i + 1) % RING;
+        }
+    }
+}
 
 fn lock() {
     while LOCK
@@ -48,6 +115,7 @@ unsafe fn verify(ptr: usize, size: usize) {
 unsafe fn evict_one() {
     let (p, s, a) = SLOTS[TAIL];
     TAIL = (TAIL + 1) % RING;
+    set_remove(p);
     BYTES.fetch_sub(s, Ordering::Relaxed);
     verify(p, s);
     System.dealloc(p as *mut u8, Layout::from_size_align_unchecked(s, a));
@@ -67,6 +135,16 @@ unsafe impl GlobalAlloc for Quarantine {
         if !ON.load(Ordering::Relaxed) || l.size() == 0 || l.size() > MAX_BLOCK {
             return System.dealloc(p, l);
         }
+        lock();
+        if set_contains(p as usize) {
+            // the block is already parked: a second free of the same allocation
+            if DOUBLE_FREES.fetch_add(1, Ordering::SeqCst) == 0 {
+                FIRST_DOUBLE_FREE_SIZE.store(l.size(), Ordering::SeqCst);
+            }
+            unlock();
+            return;
+        }
+        unlock();
         std::ptr::write_bytes(p, POISON, l.size());
         FREED_BLOCKS.fetch_add(1, Ordering::Relaxed);
         lock();
@@ -75,6 +153,8 @@ unsafe impl GlobalAlloc for Quarantine {
         }
         SLOTS[HEAD] = (p as usize, l.size(), l.align());
         HEAD = (HEAD + 1) % RING;
+        set_insert(p as usize);
+        set_maybe_rebuild();
         BYTES.fetch_add(l.size(), Ordering::Relaxed);
         unlock();
     }
@@ -148,6 +228,11 @@ pub fn check_since(marker: usize) -> u64 {
     }
     unlock();
     CORRUPTIONS.load(Ordering::SeqCst)
+}
+
+/// number of double frees seen since the last call (and the size of the first such block)
+pub fn take_double_frees() -> (u64, usize) {
+    (DOUBLE_FREES.swap(0, Ordering::SeqCst), FIRST_DOUBLE_FREE_SIZE.load(Ordering::SeqCst))
 }
 
 pub fn freed_blocks() -> u64 {
